@@ -3,6 +3,7 @@ import Fv.Lemmas.PolicyRandom
 import Fv.Lemmas.PolicySlru
 import Fv.Lemmas.PolicySieve
 import Fv.Lemmas.PolicyClock
+import Fv.Lemmas.PolicyArc
 /-!
 # C14 — eviction policies nominate only tracked residents and follow their definition
 
@@ -438,12 +439,87 @@ theorem clock_readmit_updates_cost_partial (s : Clock.State) (k c : Nat) :
       = Clock.tracked s ++ [(k, c)] := by simp [Clock.tracked, Clock.pair]
   rw [this, costOf_append, costOf_eq_none_iff.2 hk]; simp [costOf_cons]
 
-/-! ## ARC / TinyLFU witnesses -/
+/-! ## ARC (`cap` = capacity, a construction-time constant; tracked = T1 ++ T2, the ghost lists
+B1/B2 remember keys that are NOT resident and are not tracked) -/
+
+theorem arc_inv_step (cap : Nat) {s : Arc.State} (h : Arc.Inv s) (op : Op) :
+    Arc.Inv (Arc.step cap s op) := by
+  cases op with
+  | admit k c => exact (Arc.admit_spec h k c cap).1
+  | access k c => exact (Arc.access_spec h k c).1
+  | remove k => exact (Arc.remove_spec h k).1
+  | evict n picks => exact (Arc.evict_spec h n cap).choose_spec.2.2.2.1
+  | clear => exact Arc.Inv_init
+
+theorem arc_inv_reachable (cap : Nat) (ops : List Op) : Arc.Inv (Arc.run cap ops) :=
+  foldl_inv (Arc.step cap) Arc.Inv (fun _ a h => arc_inv_step cap h a) ops Arc.init Arc.Inv_init
+
+/-- the invariant says in particular: no key is tracked twice (in T1 or T2) -/
+theorem arc_inv_nodup {s : Arc.State} (h : Arc.Inv s) : (keys (Arc.tracked s)).Nodup :=
+  Arc.nodup_tracked h
+
+example : Arc.Inv (Arc.run 2 [.admit 1 1, .admit 2 1, .admit 3 1, .access 2 1, .evict 1 []]) :=
+  arc_inv_reachable _ _
+
+theorem arc_evict_sound {s : Arc.State} (h : Arc.Inv s) (n cap : Nat) :
+    EvictSound (Arc.tracked s) (Arc.tracked (Arc.evict s n cap).1)
+      (Arc.evict s n cap).2.1 (Arc.evict s n cap).2.2
+    ∧ Arc.Inv (Arc.evict s n cap).1 := by
+  obtain ⟨popped, h1, h2, hp, hi, _⟩ := Arc.evict_spec h n cap
+  rw [h1, h2]; exact ⟨EvictSound.of_perm (Arc.nodup_tracked h) hp, hi⟩
+
+/-- F9a witness (second half of the finding): `replace` returns `None` although T1 is not empty
+(T1 cheaper than the target `p`, T2 empty), so `evict 2` frees 1 while keys worth 2 are tracked. -/
+theorem C14_fails_F9a_arc_evict_stuck :
+    let s := Arc.run 2 [.admit 1 1, .admit 2 1, .admit 3 1, .admit 1 1, .admit 2 1]
+    costSum (Arc.tracked s) = 2 ∧ (Arc.evict s 2 2).2 = ([1], 1) := by decide
+
+/-- PARTIAL (F9a): `evict n` frees at least `n` provided the tracked keys are worth `n + p` (`p` =
+ARC's adaptive target for T1). Excluded: requests within `p` of the total tracked cost — there
+`replace` may give up with T1 non-empty (witness `C14_fails_F9a_arc_evict_stuck`). -/
+theorem arc_evict_enough_partial {s : Arc.State} (h : Arc.Inv s) {n : Nat} (cap : Nat)
+    (hn : n + s.p ≤ costSum (Arc.tracked s)) : n ≤ (Arc.evict s n cap).2.2 := by
+  obtain ⟨popped, _, h2, hp, _, hd⟩ := Arc.evict_spec h n cap
+  rw [h2]
+  rcases hd with hd | hd
+  · exact hd
+  · have := costSum_perm hp; simp at this; omega
+
+example : Arc.Inv (Arc.run 2 [.admit 1 1, .admit 2 1]) ∧
+    2 + (Arc.run 2 [.admit 1 1, .admit 2 1]).p ≤ costSum (Arc.tracked (Arc.run 2 [.admit 1 1, .admit 2 1])) :=
+  ⟨arc_inv_reachable _ _, by decide⟩
 
 /-- F9a witness: ARC stops tracking key 1 without nominating it. -/
 theorem C14_fails_F9a_arc :
     let s := (Arc.admit (Arc.admit (Arc.admit Arc.init 1 1 2).1 2 1 2).1 3 1 2).1
     (s.t1.contains 1 || s.t2.contains 1) = false ∧ (Arc.evict s 1000000 2).2.1 = [2, 3] := by decide
+
+/-- PARTIAL (F9a): access / remove / clear obey the contract. `admit k` obeys it (with the empty
+victim list it reports) when `k` is already tracked or T1+T2 is below capacity. Excluded: an
+admission of a new key at capacity — there the tracked set changes as if a list `dropped` of at
+most one key had been nominated, but `on_admit` reports no victim (it discards the key chosen by
+`replace`; witness `C14_fails_F9a_arc`). Nothing else is ever untracked. -/
+theorem arc_untrack_only_by_nomination_partial {s : Arc.State} (h : Arc.Inv s) (k c cap : Nat) :
+    AccessOk (Arc.tracked s) (Arc.tracked (Arc.access s k c)) k
+    ∧ ((k ∈ keys (Arc.tracked s) ∨ s.t1.cost + s.t2.cost < cap) →
+        AdmitOk (Arc.tracked s) (Arc.tracked (Arc.admit s k c cap).1) k (Arc.admit s k c cap).2.victims)
+    ∧ (∃ dropped : List Nat, dropped.length ≤ 1
+        ∧ AdmitOk (Arc.tracked s) (Arc.tracked (Arc.admit s k c cap).1) k dropped)
+    ∧ RemoveOk (Arc.tracked s) (Arc.tracked (Arc.remove s k)) k
+    ∧ Arc.tracked (Arc.clear s) = [] := by
+  obtain ⟨_, _, dropped, hl, hok, hnone⟩ := Arc.admit_spec h k c cap
+  refine ⟨(Arc.access_spec h k c).2, ?_, ⟨dropped, hl, hok⟩, ?_, rfl⟩
+  · intro hc
+    rw [Arc.admit_snd]; rw [hnone hc] at hok; exact hok
+  · rw [(Arc.remove_spec h k).2]; exact RemoveOk.of_without _ k
+
+/-- Re-admitting (or admitting) `k` records cost `c` for it — once, by `arc_inv_nodup`. -/
+theorem arc_readmit_updates_cost {s : Arc.State} (h : Arc.Inv s) (k c cap : Nat) :
+    costOf (Arc.tracked (Arc.admit s k c cap).1) k = some c := by
+  obtain ⟨hi, hm, _⟩ := Arc.admit_spec h k c cap
+  exact (costOf_eq_some_iff (Arc.nodup_tracked hi)).2 hm
+
+/-! ## TinyLFU -/
 
 /-- F9b witness: TinyLFU never nominates a key that sits in the admission window. -/
 theorem C14_fails_F9b_tinylfu :
